@@ -204,8 +204,8 @@ impl Wal {
 	/// Length of the prefix of a segment that ends exactly after its last
 	/// complete record, when everything behind it is a torn tail that the
 	/// reader reports as plain end-of-log. Returns `None` when the segment is
-	/// corrupted (left to repair). A segment without any complete record and
-	/// without a compression header is all torn tail (length 0).
+	/// corrupted (left to repair). A segment without any complete record is all
+	/// torn tail behind its compression header, if it has one.
 	fn clean_prefix_len(file_path: &Path) -> Option<u64> {
 		let file = File::open(file_path).ok()?;
 		let mut reader = super::reader::Reader::new(file);
@@ -218,7 +218,9 @@ impl Wal {
 						Some(end) => Some(end),
 						None => match Self::detect_compression_type(file_path) {
 							Ok(CompressionType::None) => Some(0),
-							_ => None,
+							// Only the compression header is complete: keep it.
+							Ok(_) => Some((HEADER_SIZE + 1) as u64),
+							Err(_) => None,
 						},
 					};
 				}
